@@ -368,7 +368,9 @@ func (nv *Native) RunBatch(units []Unit) []Outcome {
 		start := todo[0]
 		for {
 			ctx, cancel := context.WithTimeout(context.Background(), nv.Timeout)
-			run := exec.CommandContext(ctx, filepath.Join(dir, "batch.bin"), strconv.Itoa(start))
+			// address-space cap: a generated program that would eat the machine dies alone
+			run := exec.CommandContext(ctx, "/bin/sh", "-c",
+				"ulimit -v 8000000; exec "+filepath.Join(dir, "batch.bin")+" "+strconv.Itoa(start))
 			var stderr bytes.Buffer
 			run.Stderr = &stderr
 			run.Stdout = &stderr
